@@ -2,6 +2,7 @@ import ServiceModel.Proofs.Genesis
 import ServiceModel.Proofs.EarnKeys
 import ServiceModel.Proofs.Valid
 import ServiceModel.Proofs.Restart
+import ServiceModel.Proofs.RestartStable
 /-!
 # C19 — State survives export and re-import; zero-height export returns all escrow
 
@@ -291,5 +292,16 @@ theorem chain_with_restarts_keeps_invariants (hc : CfgOK cfg p) {s : State} (hr 
   refine ⟨hall.inv, ?_, hall.inv.b.backed, validate_after_prep_of hall.inv hall.earn hall.recs hall.ctxf,
     fun height time => reachableR_restart_succeeds hc hr height time⟩
   rw [activeFees_eq]; exact hall.inv.m.escrow
+
+/-- What the restarted chain reads back, as point lookups: every definition, every binding (the whole record —
+    deposit, price text, availability, disabling time, owner), every withdrawal address and every provider's owner are
+    those of the old chain, the parameters and the module accounts too. -/
+theorem restart_gives_back_the_same_records (hc : CfgOK cfg p) {s s' : State} (hr : ReachableR cfg p h0 t0 s)
+    {height time : Int} (hre : restart s height time = some s') :
+    (∀ n, get s'.defs n = get s.defs n) ∧ (∀ k, get s'.bindings k = get s.bindings k) ∧
+    (∀ o, get s'.withdraw o = get s.withdraw o) ∧ (∀ pv, get s'.owner pv = get s.owner pv) ∧
+    s'.params = s.params ∧ s'.cfg = s.cfg :=
+  let h := (restart_sameRecords (reachableR_invAll hc hr) hre).1
+  ⟨h.defs, h.bindings, h.withdraw, h.owner, h.params, h.cfg⟩
 
 end SM.C19
